@@ -336,6 +336,8 @@ def check_conf(case, acc):
                    size=all_orders().index(case["order"]) + (100 if case["fmt"] != "pin" else 0))
 
     df, s, lab = conf_table(case["pi0"], case["sep"], case["nt"], case["nd"], case["round"], case["order"])
+    asc = bool(case.get("ascending"))  # lower-is-better scores: assign_confidence gets -s and descs=[False]
+    sgn = -1.0 if asc else 1.0
     by_id = {f"psm{i}": (float(s[i]), bool(lab[i])) for i in range(len(s))}
     set_chunks(**DEFAULT_CHUNKS)
     work = _scratch()
@@ -347,7 +349,7 @@ def check_conf(case, acc):
         try:
             with warnings.catch_warnings():
                 warnings.simplefilter("ignore")
-                assign_confidence([ds], max_workers=1, scores=[s.copy()], descs=[True], dest_dir=out,
+                assign_confidence([ds], max_workers=1, scores=[sgn * s.copy()], descs=[not asc], dest_dir=out,
                                   prefixes=[None], decoys=True, deduplication=True, do_rollup=True,
                                   peps_algorithm=alg)
         except BaseException as e:
@@ -369,7 +371,7 @@ def check_conf(case, acc):
                         viol(f"confidence-{level}-unknown-row", f"{name}.{level}: PSMId {pid!r} is not an input row")
                         continue
                     sc, lb = by_id[pid]
-                    if lb != want or abs(float(r["score"]) - sc) > 1e-9:
+                    if lb != want or abs(sgn * float(r["score"]) - sc) > 1e-9:
                         viol(f"confidence-{level}-row-mixed", f"{name}.{level}: row {pid} carries score {r['score']} / "
                              f"label file {name}, the input PSM has score {sc}, target={lb}")
                         continue
@@ -450,6 +452,10 @@ def run(ctx):
                         continue
                     conf.append({"part": "conf", "pi0": pi0, "sep": sep, "nt": nt, "nd": nd, "round": rnd, "alg": alg,
                                  "order": o, "fmt": fmt})
+                    if fmt == "pin" and o == "asc" and sep == 2.0:
+                        # lower-is-better scores (descs=[False]): the PEP column must follow the returned direction
+                        conf.append({"part": "conf", "pi0": pi0, "sep": sep, "nt": nt, "nd": nd, "round": rnd, "alg": alg,
+                                     "order": o, "fmt": fmt, "ascending": True})
     k = 3
     ctx.pmap(conf_worker, [conf[i:i + k] for i in range(0, len(conf), k)])
     ctx.exhaustive = True
